@@ -565,7 +565,7 @@ func (x *dbExec) observe(db *simpledb.DB) {
 	}
 	fds, maps, gor := 0, 0, 0
 	// settle loop: background goroutines that are about to exit need a moment
-	for try := 0; try < 400; try++ {
+	for try := 0; try < 5000; try++ {
 		// quiescent = no compaction cycle between its selection and its reflect while we count
 		epoch := atomic.LoadInt32(&x.rec.compactEpoch)
 		busy := atomic.LoadInt32(&x.rec.compacting) != 0
